@@ -697,6 +697,7 @@ func TestC13(t *testing.T) {
 	dir := workDir(t, "C13")
 	if !skipFixed {
 		c13FixedDocs(t, rec, dir)
+		c13Hostile(t, rec, dir)
 	}
 	rapid.Check(t, func(rt *rapid.T) {
 		switch k := rapid.IntRange(0, 9).Draw(rt, "generator"); {
@@ -751,6 +752,45 @@ func c13FixedDocs(t *testing.T, rec *ev.Rec, dir string) {
 			obj{{"Cond", `req_host_in("www.c.com")`}, {"ClusterName", "Demo-D"}},
 			obj{{"Cond", "default_t()"}, {"ClusterName", "Demo-E"}}}}}}}
 	c13Positive(t, rec, dir, &d2, "fixed")
+}
+
+// hostile constants (the same as in corpus/FuzzC13): one file replaced, the other five valid
+func c13Hostile(t *testing.T, rec *ev.Rec, dir string) {
+	fuzzSetup()
+	for _, h := range []struct {
+		which int
+		data  string
+	}{
+		{fCTable, `{"Version":"1","Config":{"c":{"s":[null]}}}`},
+		{fCTable, `{"Version":"1","Config":{"c":{"s":null}}}`},
+		{fCTable, `{"Version":"1","Config":{"c":null}}`},
+		{fCluster, `null`},
+		{fCluster, `{"Version":"1","Config":{"c":null}}`},
+		{fCluster, `{"Version":"1","Config":{"c":{"GslbBasic":{"HashConf":null},"BackendConf":null}}}`},
+		{fGslb, `{"Clusters":{"c":null},"Hostname":"h","Ts":"1"}`},
+		{fGslb, `{"Clusters":null,"Hostname":"h","Ts":"1"}`},
+		{fHost, `{"Version":"1","Hosts":{"t":null},"HostTags":{"p":null}}`},
+		{fHost, `{"Version":"1","Hosts":{"t":[null]},"HostTags":{"p":[null,"t"]}}`},
+		{fVip, `{"Version":"1","Vips":{"p":null}}`},
+		{fVip, `{"Version":"1","Vips":{"p":["1.2.3.4.5",""]}}`},
+		{fRoute, `{"Version":"1","BasicRule":{"p":[null]},"ProductRule":{"p":[null]}}`},
+		{fRoute, `{"Version":"1","BasicRule":{"p":null},"ProductRule":null}`},
+		{fRoute, `{"Version":"1","BasicRule":{"p":[{"Hostname":[null],"Path":[null],"ClusterName":"c"}]}}`},
+		{fRoute, `{"Version":"1","ProductRule":{"p":[{"Cond":"req_host_in(","ClusterName":"c"}]}}`},
+		{fCluster, strings.Repeat("[", 3000)},
+	} {
+		docs := fuzzBase
+		docs[h.which] = []byte(h.data)
+		r := loadSet(dir, docs)
+		rec.Case("hostile|"+loaderNames[h.which]+"|"+h.data, true, "hostile-constant", "neg-file:"+loaderNames[h.which])
+		if r.panicked != nil {
+			c := h.data
+			if len(c) > 200 {
+				c = c[:200] + "..."
+			}
+			rec.Fail(t, "panic-"+r.panicked.Site, map[string]any{"file": fileNames[h.which], "content": c}, "%s panicked on %s = %s: %s", r.where, fileNames[h.which], c, r.panicked.Val)
+		}
+	}
 }
 
 // ---------- native fuzzing of the raw bytes of each loader (thorough tier) ----------
